@@ -60,13 +60,18 @@ MatchCb(h, e) == h.k = "cb" /\ h.tag = e.tag /\ h.pgn = e.pgn /\ h.sa = e.sa /\ 
 
 Apply(e) ==
     LET n == e.node IN
-    CASE e.ev = "api" /\ e.op = "send_pgn" ->
+    CASE e.ev = "api" /\ e.op = "send_pgn" /\ pc[n].ph \in {"rcv", "mpg", "snd", "burst", "eoms", "bexit"} ->
+           \* submitted from a timer callback: the pass over the sessions of this loop iteration is finished first
+           LET r == FinishPass(n, e.t) IN
+           IF r.dead \/ r.out # <<>> \/ r.pc.ph # "end" THEN Fail("pass not finished as predicted before the timer callbacks")
+           ELSE [S([ns EXCEPT ![n] = r.ns], [pc EXCEPT ![n] = r.pc], pend, dm, bm, {}) EXCEPT !.bad = {"RETRY"}]
+      [] e.ev = "api" /\ e.op = "send_pgn" ->
            LET a == [dp |-> e.dp, pf |-> e.pf, ps |-> e.ps, prio |-> e.prio, sa |-> e.sa, data |-> e.data, tl |-> e.tl, ff |-> e.ff]
                r == SendPgn(ns[n], Cfg(n), a, e.t)
            IN IF Has2(e, "exc") THEN Fail("api.send_pgn raised")
               ELSE IF e.ret # r.ret THEN Fail("api.send_pgn return value")
               ELSE S([ns EXCEPT ![n] = r.ns], pc, [pend EXCEPT ![n] = r.out \o @],
-                     IF r.ret THEN DmAccept(dm, n, a) ELSE DmRefuse(dm), bm, {})
+                     IF r.ret THEN DmAccept(dm, n, [a EXCEPT !.data = e.data] @@ [t |-> e.t]) ELSE DmRefuse(dm), bm, {})
       [] e.ev = "api" /\ e.op = "add_timer" ->     \* one-shot probe timer: wakes the job thread
            S([ns EXCEPT ![n].tok = @ + 1], pc, pend, dm, bm, {})
       [] e.ev = "timer" ->                          \* its callback: never early, at most the wake latency late
@@ -168,16 +173,19 @@ Final ==
 Step ==
     /\ bad = {} /\ ~Done
     /\ LET r0 == Apply(Ev[l])
-           r == IF r0.bad = {} /\ Overdue(Ev[l].t)
+           retry == r0.bad = {"RETRY"}          \* the state was prepared; the same event is applied again
+           r == IF retry THEN [r0 EXCEPT !.bad = {}]
+                ELSE IF r0.bad = {} /\ Overdue(Ev[l].t)
                 THEN [r0 EXCEPT !.bad = {"session not given up within the standard's time-out"}] ELSE r0 IN
        /\ ns' = r.ns /\ pc' = r.pc /\ pend' = r.pend /\ dm' = r.dm /\ bm' = r.bm
-       /\ bad' = IF r.bad = {} /\ l = Len(Ev) THEN
+       /\ bad' = IF retry THEN {}
+                 ELSE IF r.bad = {} /\ l = Len(Ev) THEN
                     (IF \E n \in Nodes \ silent : r.pend[n] # <<>> THEN {"predicted output never happened"}
-                     ELSE DmFinal(r.dm, Tr) \cup BmFinal(r.bm, Tr) \cup
+                     ELSE DmFinal(r.dm, Tr) \cup BmFinal(r.bm, Tr) \cup Bm22Final(r.bm, r.dm.acc, Tr) \cup
                           (IF Tr.expect.idle /\ \E n \in Nodes \ silent : r.ns[n].snd # <<>> \/ r.ns[n].rcv # <<>> \/ r.ns[n].mpg # <<>>
                            THEN {"sessions left open at the end"} ELSE {}))
                  ELSE r.bad
-       /\ l' = IF r.bad = {} THEN l + 1 ELSE l
+       /\ l' = IF retry THEN l ELSE IF r.bad = {} THEN l + 1 ELSE l
     /\ silent' = IF Ev[l].ev = "silence" THEN silent \cup {Ev[l].node} ELSE silent
     /\ tmr' = IF Ev[l].ev = "api" /\ Ev[l].op = "add_timer" THEN [tmr EXCEPT ![Ev[l].node] = Ev[l].t + Ev[l].delta]
               ELSE IF Ev[l].ev = "timer" THEN [tmr EXCEPT ![Ev[l].node] = None] ELSE tmr
